@@ -726,11 +726,36 @@ def lockstep_to_zip(fn: ast.FunctionDef) -> tuple[ast.FunctionDef, int]:
     return new, count
 
 
-def unroll_literal_loops(fn: ast.FunctionDef) -> tuple[ast.FunctionDef, int]:
+def getattr_constants(fn: ast.FunctionDef) -> tuple[ast.FunctionDef, int]:
+    """getattr(x, "name") with a constant identifier and no default  ->  x.name"""
+    count = 0
+
+    class T(ast.NodeTransformer):
+        def visit_Call(self, node: ast.Call):
+            nonlocal count
+            self.generic_visit(node)
+            if isinstance(node.func, ast.Name) and node.func.id == "getattr" and len(node.args) == 2 and not node.keywords and isinstance(node.args[1], ast.Constant) and isinstance(node.args[1].value, str) and node.args[1].value.isidentifier():
+                count += 1
+                return ast.copy_location(ast.Attribute(value=node.args[0], attr=node.args[1].value, ctx=ast.Load()), node)
+            return node
+
+    if not any(isinstance(n, ast.Call) and isinstance(n.func, ast.Name) and n.func.id == "getattr" for n in ast.walk(fn)):
+        return fn, 0
+    new = copy.deepcopy(fn) if not getattr(fn, "_xsa_copy", False) else fn
+    new = T().visit(new)
+    if count == 0:
+        return fn, 0
+    ast.fix_missing_locations(new)
+    new._xsa_copy = True  # type: ignore[attr-defined]
+    return new, count
+
+
+def unroll_literal_loops(fn: ast.FunctionDef, module_assigns: dict[str, ast.AST] | None = None) -> tuple[ast.FunctionDef, int]:
     """`for a, b in ((x1, y1), (x2, y2)): BODY`  ->  BODY[a:=x1, b:=y1]; BODY[a:=x2, b:=y2]   (at most 4 literal
     elements of pure expressions, BODY without break / continue / rebinding of the targets).  A `return` in BODY keeps
     its meaning."""
-    if not any(isinstance(n, ast.For) and isinstance(n.iter, (ast.Tuple, ast.List)) for n in ast.walk(fn)):
+    module_assigns = module_assigns or {}
+    if not any(isinstance(n, ast.For) and (isinstance(n.iter, (ast.Tuple, ast.List)) or (isinstance(n.iter, ast.Name) and isinstance(module_assigns.get(n.iter.id), (ast.Tuple, ast.List)))) for n in ast.walk(fn)):
         return fn, 0
     count = 0
 
@@ -742,7 +767,9 @@ def unroll_literal_loops(fn: ast.FunctionDef) -> tuple[ast.FunctionDef, int]:
             nonlocal count
             self.generic_visit(node)
             it = node.iter
-            if not isinstance(it, (ast.Tuple, ast.List)) or not (1 <= len(it.elts) <= 4) or node.orelse or not all(pure(e) for e in it.elts):
+            if isinstance(it, ast.Name) and isinstance(module_assigns.get(it.id), (ast.Tuple, ast.List)):
+                it = module_assigns[it.id]
+            if not isinstance(it, (ast.Tuple, ast.List)) or not (1 <= len(it.elts) <= 6) or node.orelse or not all(pure(e) for e in it.elts):
                 return node
             tg = node.target
             names = [tg.id] if isinstance(tg, ast.Name) else [e.id for e in tg.elts if isinstance(e, ast.Name)] if isinstance(tg, ast.Tuple) else []
@@ -827,7 +854,8 @@ def inline(fi) -> ast.AST:
         new, _ = propagate_aliases(new)
     new, _ = index_loops_to_zip(new)
     new, _ = lockstep_to_zip(new)
-    new, _ = unroll_literal_loops(new)
+    new, _ = unroll_literal_loops(new, getattr(fi.module, "assigns", {}))
+    new, _ = getattr_constants(new)
     new, _ = expand_literal_quantifiers(new, getattr(fi.module, "assigns", {}))
     return new
 
